@@ -542,6 +542,8 @@ String File::simplifyPath(const String& path)
       break;
     start = end + 1;
   }
+  if(result.isEmpty() && startsWithSlash)
+    result.append('/'); // the root directory
   return result;
 }
 
@@ -557,7 +559,8 @@ String File::getRelativePath(const String& from, const String& to)
   String simTo = simplifyPath(to);
   if(simFrom == simTo)
     return String(".");
-  simFrom.append('/');
+  if(!simFrom.endsWith("/"))
+    simFrom.append('/');
   if(String::compare((const char*)simTo, (const char*)simFrom, simFrom.length()) == 0)
     return String((const char*)simTo + simFrom.length(), simTo.length() - simFrom.length());
   String result("../");
